@@ -23,7 +23,7 @@ CONTEXTS = ['expr', 'assign', 'return', 'if', 'ifelse', 'try', 'tryfinally', 'wi
             'listcomp', 'genexp', 'dictcomp', 'nested', 'lambda', 'argof', 'starof', 'dstarof', 'ternary',
             'nested_decorated', 'fstring', 'await_free_walrus',
             'nested_argof', 'lambda_argof', 'nested_kwof', 'nested_starof', 'nested_twice', 'lambda_in_nested',
-            'nested_receiver']
+            'nested_receiver', 'except', 'except_bare', 'except_tuple', 'except_as', 'tryelse']
 # How many times the visitor defers a call before processing it.  Deferred calls are processed after the
 # top-level ones, in order of (deferral depth, source order): exchanging contexts of different depth reorders
 # the operands of the final merge, which may legitimately change names of positional-only parameters and the
@@ -53,6 +53,8 @@ TAINTS_KW = [
     ('nonlocal-chain', 'def _nl2():\n    nonlocal {K}\n    def _nl3():\n        nonlocal {K}\n        {K} = dict(OTHER_K)', 'definite'),
     ('nonlocal-deep', 'def _nl4():\n    def _nl5():\n        nonlocal {K}\n        {K} = dict(OTHER_K)', 'definite'),
     ('nonlocal-in-class-method', 'class _NL6:\n    def m(self):\n        nonlocal {K}\n        {K} = dict(OTHER_K)', 'definite'),
+    ('rebind-in-except', 'try:\n    raise KeyError()\nexcept KeyError:\n    {K} = dict(OTHER_K)', 'definite'),
+    ('rebind-in-bare-except', 'try:\n    raise KeyError()\nexcept:\n    {K} = dict(OTHER_K)', 'definite'),
     ('tuple-unpack', '{K}, _u = dict(OTHER_K), 1', 'definite'),
     ('read-len', 'len({K})', 'ambiguous'),
     ('read-item', '{K}.get("zq9")', 'ambiguous'),
@@ -77,6 +79,7 @@ TAINTS_VA = [
     ('nonlocal', 'def _nl():\n    nonlocal {A}\n    {A} = tuple(OTHER_A)', 'definite'),
     ('nonlocal-chain', 'def _nl2():\n    nonlocal {A}\n    def _nl3():\n        nonlocal {A}\n        {A} = tuple(OTHER_A)', 'definite'),
     ('nonlocal-deep', 'def _nl4():\n    def _nl5():\n        nonlocal {A}\n        {A} = tuple(OTHER_A)', 'definite'),
+    ('rebind-in-except', 'try:\n    raise KeyError()\nexcept (KeyError, ValueError):\n    {A} = tuple(OTHER_A)', 'definite'),
     ('tuple-unpack', '{A}, _u = tuple(OTHER_A), 1', 'definite'),
     ('method-call', '{A}.count(1)', 'ambiguous'),
     ('handed-on', 'sink({A})', 'ambiguous'),
@@ -212,7 +215,9 @@ def gen_program(case_seed, force=None):
         if route in ('global', 'closure', 'attr', 'inner_partial', 'callobj', 'param_partial') and 'taints' not in force \
                 and rnd.random() < 0.12:
             dress = rnd.choice(('lru_cache', 'wraps'))
-        calls.append(dict(pi=pi, n=n, names=names, star=star, dstar=dstar, ctx=ctx, dress=dress,
+        via_local = ncalls >= 2 and 'taints' not in force and route in ('global', 'closure', 'attr', 'selfmethod', 'callobj', 'clsmethod') \
+            and rnd.random() < 0.1
+        calls.append(dict(pi=pi, n=n, names=names, star=star, dstar=dstar, ctx=ctx, dress=dress, via_local=via_local,
                           nested=ctx in NESTED_CONTEXTS, lead=[rnd.choice(('0', '0', 'None')) for _ in range(max(n, 2))][:n]))
     # a taint inside the forwarding call's own arguments: Python evaluates the explicit arguments before it
     # unpacks **kwargs, so `callee(kwargs.pop("k", None), **kwargs)` forwards a dict that was mutated first
@@ -261,6 +266,10 @@ def render(meta):
     for ci, c in enumerate(calls):
         body += stmts_by_pos.get(ci, [])
         cname = callee_ref(route, ci)
+        if c.get('via_local'):
+            # the callee is first stored in a local variable: nothing can be known about it statically
+            body.append('loc%d_ = %s' % (ci, cname))
+            cname = 'loc%d_' % ci
         fa = list(c['lead'])
         if c['star'] == 'own':
             fa.append('*' + ova)
@@ -351,6 +360,16 @@ def wrap_context(ctx, call):
         return ['if 0:', '    pass', 'else:', '    ' + call]
     if ctx == 'try':
         return ['try:', '    ' + call, 'except KeyError:', '    pass']
+    if ctx == 'except':
+        return ['try:', '    raise KeyError()', 'except KeyError:', '    ' + call]
+    if ctx == 'except_bare':
+        return ['try:', '    raise KeyError()', 'except:', '    ' + call]
+    if ctx == 'except_tuple':
+        return ['try:', '    raise KeyError()', 'except (ValueError, KeyError):', '    ' + call]
+    if ctx == 'except_as':
+        return ['try:', '    raise KeyError()', 'except KeyError as exc_:', '    ' + call]
+    if ctx == 'tryelse':
+        return ['try:', '    pass', 'except KeyError:', '    pass', 'else:', '    ' + call]
     if ctx == 'tryfinally':
         return ['try:', '    pass', 'finally:', '    ' + call]
     if ctx == 'with':
@@ -588,6 +607,8 @@ def expected_for(meta, g, osig, combo):
             continue
         if route == 'default_param':
             return [('callee-is-only-a-default', 'plain')]
+        if c.get('via_local'):
+            return [('callee-is-a-local-variable', 'plain')]
         try:
             isig = sigtools.signature(callee)
         except Exception as e:
